@@ -212,6 +212,32 @@ class Run:
             return out
         return self._chunks(lines, one)
 
+    def coverage(self, lines):
+        """thorough tier: line/branch/function coverage of src/xraylib-parser.c reached by the correspondence lines, measured on
+        a second, coverage-instrumented build of the working tree (observer only)"""
+        t = time.time()
+        covfl = ('-fprofile-instr-generate', '-fcoverage-mapping')
+        objs, fl = cbuild.build_lib(self.sc, REPO, san=None, extra=covfl, tag='cov')
+        exe = self.sc.path('c07drv_cov')
+        cbuild.link(self.sc, objs, [os.path.join(VERIF, 'harness', 'c07drv.c')], exe, fl + WRAP)
+        pdir = self.sc.path('prof'); os.makedirs(pdir, exist_ok=True)
+        env = dict(os.environ, LLVM_PROFILE_FILE=os.path.join(pdir, 'c07-%p.profraw'))
+        def one(ls):
+            subprocess.run([exe], input='\n'.join(ls) + '\n', capture_output=True, text=True, env=env); return []
+        self._chunks(lines, one, chunk=20000)
+        raws = [os.path.join(pdir, f) for f in os.listdir(pdir)]
+        merged = self.sc.path('c07.profdata')
+        p = subprocess.run(['llvm-profdata-14', 'merge', '-sparse'] + raws + ['-o', merged], capture_output=True, text=True)
+        if p.returncode != 0: return dict(error=p.stderr[-300:])
+        src = os.path.join(REPO, 'src', 'xraylib-parser.c')
+        p = subprocess.run(['llvm-cov-14', 'export', '-summary-only', '-instr-profile=' + merged, exe, src], capture_output=True, text=True)
+        self.ctx.tick('coverage', t)
+        try:
+            d = json.loads(p.stdout)['data'][0]['files'][0]['summary']
+            return {k: dict(covered=d[k]['covered'], count=d[k]['count'], percent=round(d[k]['percent'], 2)) for k in ('lines', 'branches', 'functions', 'regions') if k in d}
+        except Exception as e:
+            return dict(error=str(e)[:200] + p.stderr[-200:])
+
     # ---- generators -----------------------------------------------------------------------------
     def gen_inputs(self):
         """-> list of (family, bytes, meta)"""
@@ -222,7 +248,7 @@ class Run:
             for b in self.syms: out.append(('pair', (a + b).encode(), None))
         g = G.Gen(r, self.syms_w)
         gall = G.Gen(r, self.syms)
-        nform = 40000 if thorough else 4000
+        nform = 100000 if thorough else 4000
         self.rewrite_pairs = []      # (index of original, index of rewrite, kind)
         for k in range(nform):
             f = (gall if k % 10 == 9 else g).formula()
@@ -491,6 +517,7 @@ class C07:
                 w = check_add(l, c)
                 if w: viol.append((l, None, w, c, 'ascending union with fractions wA*fA + wB*fB'))
         ctx.tick('search', t)
+        cov_c = R.coverage(lines) if (R.tier == 'thorough' and not replay) else None
         # ---- classify -----------------------------------------------------------------------------------
         knownkeys = {k: txt for k, txt in known}
         new = []; hits = {}
@@ -545,7 +572,7 @@ class C07:
                         'non-trivial = distinct input strings for which the specification oracle expects a composition (a well-formed formula all of whose elements have weights)' % (len(R.syms), QUICK_FULL_SEEDS),
                    samples=[dict(line=lines[i], impl=c_out[i][:300], model=m_out[i][:300]) for i in smp_idx],
                    max_rel_dev_model_vs_impl=stats.get('max_rel_dev', 0.0), max_rel_dev_oracle_vs_impl=sstats.get('max_rel_dev', 0.0),
-                   distribution=dist, tables_sha=R.tables_sha, model_variant=dict(localeFix=variant[0] == '1', weightFix=variant[1] == '1', leakFix=variant[2] == '1'), mutation_seeds=getattr(R, 'mut_seeds', []),
+                   distribution=dist, c_coverage_xraylib_parser_c=cov_c, tables_sha=R.tables_sha, model_variant=dict(localeFix=variant[0] == '1', weightFix=variant[1] == '1', leakFix=variant[2] == '1'), mutation_seeds=getattr(R, 'mut_seeds', []),
                    provenance=dict(parser_c=_sha(os.path.join(REPO, 'src', 'xraylib-parser.c')), repo=REPO),
                    broken=rep)
         core.write_evidence(ctx, 'proof', cov, len(new) + (1 if broken and not new else 0), ASSUMPTIONS)
